@@ -132,6 +132,16 @@ def store_view(p, store):
     return exp
 
 
+def attr_ids(p, attr):
+    """Property ids whose report decides the getter `attr` under profile p."""
+    ids = supported_ids(p)
+    m = {"vertical_swing_angle": {0x0009}, "horizontal_swing_angle": {0x000A}, "rate_select": {0x0048},
+         "ieco": {0x00E3}, "self_clean_active": {0x0039}}
+    if attr in m:
+        return m[attr] & ids
+    return {0x0043, 0x0042, 0x0018} & ids        # the three breeze flags follow every breeze id the unit has
+
+
 def stale_value(view, pid):
     """Vendor encoding of what the getters show right after the object processed a report with this view."""
     import types
@@ -322,19 +332,40 @@ def run(plan):
                 if op.get("dup_props_late") and supported_ids(p):
                     # the device re-sends its property report a few seconds later (a late duplicate)
                     rop["net"] = [{}, {"dup_late": op["dup_props_late"]}]
+                held = {}
+                if op.get("empty") and supported_ids(p):
+                    # the unit answers some of the queried properties with an empty record this once: the object
+                    # keeps what it showed, and goes on querying / writing these ids as before
+                    emp = set(op["empty"]) & supported_ids(p)
+                    dev.empty_props_once = set(emp)
+                    shown_now = store_view(p, {})
+                    for attr in shown_now:
+                        if attr_ids(p, attr) & emp:
+                            held[attr] = getattr(ac, attr)
                 o = await s.do(rop)
                 if o.kind != "ok":
                     res.fail(f"refresh raised {o.exc_type}", repr(o.exc))
                     return
+                late_view = None
                 if stale is not None and w.loop.time() >= stale["at"]:
+                    late_view = stale["view"]        # the late copy was processed by this poll's state exchange
                     stale = None
                 if rop.get("net"):
                     stale = {"at": w.loop.time() + op["dup_props_late"], "view": store_view(p, dev.props)}
                 did["refresh"] += 1
                 exp = store_view(p, dev.props)
+
+                def same(got, v):
+                    return (got == v and isinstance(got, bool)) if isinstance(v, bool) else (int(got) == int(v))
                 for attr, v in exp.items():
                     got = getattr(ac, attr)
-                    ok = (got == v and isinstance(got, bool)) if isinstance(v, bool) else (int(got) == v)
+                    if attr in held:
+                        # no value in this poll: what the object showed before it, or what a late copy of an older
+                        # report (processed first) made it show
+                        v = held[attr]
+                        ok = same(got, v) or (late_view is not None and attr in late_view and same(got, late_view[attr]))
+                    else:
+                        ok = same(got, v)
                     if not ok:
                         res.fail(f"{attr} read back differs from the device's value",
                                  f"got {got!r} expected {v!r}; store { {hex(k): x.hex() for k, x in dev.props.items()} }")
@@ -458,6 +489,16 @@ def gen(j, rng):
         ops.insert(0, {"op": "set", "attr": attr, "value": rng.choice(vals)})
         attr2, vals2 = rng.choice(setters)
         ops += [{"op": "refresh"}, {"op": "set", "attr": attr2, "value": rng.choice(vals2)}]
+    if rng.random() < 0.12 and ids:
+        # one poll in which the unit answers some properties with an empty record; a setter later on
+        emp = set(rng.sample(sorted(ids), rng.randint(1, len(ids))))
+        if p["breeze"] == "both" and emp & {0x0042, 0x0018}:
+            emp |= {0x0042, 0x0018}
+        pos = rng.randrange(0, len(ops) + 1)
+        ops.insert(pos, {"op": "refresh", "empty": sorted(emp)})
+        if setters:
+            attr, vals = rng.choice(setters)
+            ops.insert(rng.randrange(pos + 1, len(ops) + 1), {"op": "set", "attr": attr, "value": rng.choice(vals)})
     ops += [{"op": "apply"}, {"op": "refresh"}, {"op": "apply"}]
     cfg = {"version": rng.choice([2, 2, 3]), "caps_pages": [[profile_caps(p), None]], "props": store}
     if rng.random() < 0.15:
